@@ -127,6 +127,11 @@ def step (d : DS) (ws : List String) : DS × String :=
                         exat := if x == 0 then none else some x }
     let r := save d.now sch e (getH d (pre ++ unhx key))
     (setH d (pre ++ unhx key) r.1, saveStr r.2 ++ " " ++ dumpH d.now r.1)
+  | ["!sm", given, before] =>
+    -- specification: refused iff the member is stale w.r.t. what was stored for its key; a saved member's
+    -- in-memory version is the stored one (given + 1)
+    let g := given.toInt?.getD 0
+    (d, if before == "-" || before == given then "ok:" ++ toString (g + 1) else "mismatch:" ++ toString g)
   | [op, t, key] =>
     if op == "fetch" ∨ op == "fetchc" then
       let (sch, pre) := schOf d t
@@ -146,6 +151,31 @@ def step (d : DS) (ws : List String) : DS × String :=
       | some k => { k with h := hset k.h (unhx f) (unhx v) }
       | none => { h := hset [] (unhx f) (unhx v) }
     (setH d key (some k), dumpH d.now (some k))
+  | "hsavemulti" :: items =>
+    -- the model's saveMulti over the hash store of the driver
+    let ents := (List.range items.length).zip items |>.map fun (i, x) =>
+      let p := x.splitOn ":"
+      let key := unhx (p.getD 0 "-")
+      ({ key := key, ver := (p.getD 1 "0").toInt?.getD 0, fields := d.schE.fields.map fun (n, z) =>
+          if n == "s" then (n, FV.str ("m" ++ toString i)) else if n == "i" then (n, FV.int i) else (n, z) } : Entity)
+    let r := saveMulti d.now d.schE ents (fun k => getH d ("e:" ++ k))
+    let d' := ents.foldl (fun acc e => setH acc ("e:" ++ e.key) (r.1 e.key)) d
+    (d', ",".intercalate (r.2.zip ents |>.map fun (res, e) => match res with
+      | .ok v => "ok:" ++ toString v
+      | .mismatch => "mismatch:" ++ toString e.ver
+      | .err => "err:" ++ toString e.ver))
+  | "jsavemulti" :: items =>
+    let (d', outs) := items.foldl (fun (acc : DS × List String) x =>
+      let (dd, os) := acc
+      let p := x.splitOn ":"
+      let key := "j:" ++ unhx (p.getD 0 "-")
+      let ver := (p.getD 1 "0").toInt?.getD 0
+      let r := jsave dd.now false ver (unhx (p.getD 2 "-")) (getJ dd key)
+      (setJ dd key r.1, os ++ [match r.2 with
+        | .ok v => "ok:" ++ toString v
+        | .mismatch => "mismatch:" ++ toString ver
+        | .err => "err:" ++ toString ver])) (d, [])
+    (d', ",".intercalate outs)
   | ["race", key, ver, n] => race d (unhx key) (ver.toInt?.getD 0) (n.toNat?.getD 0)
   | ["!race", key, ver, n] =>
     -- specification: exactly one of the concurrent saves wins; the model state follows the model
